@@ -2480,12 +2480,19 @@ class Tuple(BaseTuple):
 
         elif isinstance(value, tuple) and len(value) == len(self.types):
             try:
-                return tuple(
+                values = [
                     type.validate(object, name, item_value)
                     for type, item_value in zip(self.types, value)
-                )
+                ]
             except TraitError:
                 pass
+            else:
+                # Like the compiled validator, hand back the tuple given
+                # (possibly an instance of a tuple subclass) when no item
+                # was converted.
+                if all(new is old for new, old in zip(values, value)):
+                    return value
+                return tuple(values)
 
         self.error(object, name, value)
 
